@@ -184,6 +184,7 @@ func roundTripCase(r *mon.Run, tmp string, i int, big bool) {
 	}
 	req.Reset()
 	if after := mine(scanTmp(tmp), "rt", i); len(after) > 0 {
+		markReported(after)
 		r.Violation(i, "tempfile-alive-after-request-reset", fmt.Sprintf("%s: %d temp file(s) of the parsed form still exist after Request.Reset(): %+v", routeNames[route], len(after), after), payload)
 	} else if len(before) > 0 {
 		r.Event("roundtrip_tempfiles_removed_by_reset", len(before))
